@@ -623,7 +623,8 @@ def _store_load_forward(fnode):
                     and isinstance(s.targets[0].value, ast.Name) and s.targets[0].value.id == "self" and isinstance(s.value, ast.Name)):
                 continue
             attr, n = s.targets[0].attr, s.value.id
-            if attr in PROPERTY_NAMES or attr.startswith("__"):
+            # a store to a property runs its setter: known per class when refswap marked the method, else by name anywhere
+            if attr in getattr(fnode, "_props", PROPERTY_NAMES) or attr.startswith("__"):
                 continue
             # classes with __setattr__/__getattr__ hooks (Config) intercept attribute traffic
             if "*" in PROPERTY_NAMES and _owner_has_hooks(fnode):
@@ -639,14 +640,30 @@ def _store_load_forward(fnode):
                         stop = True
                     if isinstance(x, (ast.For, ast.While, ast.Try, ast.With, ast.FunctionDef, ast.Lambda)):
                         stop = True
-                    if isinstance(x, ast.Call):
-                        for y in ast.walk(x):
-                            if isinstance(y, ast.Name) and y.id == "self" and not any(y is ld.value for ld in loads):
-                                stop = True
+                # calls that are handed `self` (directly or as the receiver of a method) may re-bind the attribute: loads that are
+                # evaluated BEFORE such a call completes (e.g. its own arguments) are still forwarded, later ones are not
+                risky = [x for x in ast.walk(st) if isinstance(x, ast.Call)
+                         and any(isinstance(y, ast.Name) and y.id == "self" and not any(y is ld.value for ld in loads) for y in ast.walk(x))]
                 if stop:
                     break
+                if risky and isinstance(st, (ast.If, ast.For, ast.While, ast.Try, ast.With)):
+                    break
+                order = list(_in_order(st))
+                pos = {id(x): k for k, x in enumerate(order) if not isinstance(x, (ast.expr_context, ast.operator, ast.cmpop, ast.boolop, ast.unaryop))}
+                done_after = None
+                for x in risky:
+                    # a call completes after everything inside it has been evaluated
+                    inside = [pos[id(y)] for y in ast.walk(x) if id(y) in pos]
+                    end = max(inside) if inside else pos.get(id(x), 0)
+                    done_after = end if done_after is None else min(done_after, end)
+                forwarded_all = True
                 for ld in loads:
+                    if done_after is not None and pos.get(id(ld), 0) > done_after:
+                        forwarded_all = False
+                        continue
                     _replace(st, ld, ast.Name(id=n, ctx=ast.Load()))
+                if risky or not forwarded_all:
+                    break
     return fnode
 
 
